@@ -108,7 +108,8 @@ std::string writeReplay(const std::vector<uint32_t> &tape, const Case &c, const 
     char name[64];
     snprintf(name, sizeof name, "/%s-%016llx.tape", gName.empty() ? property.id : gName.c_str(), static_cast<unsigned long long>(h));
     std::string path = gReplayDir + name;
-    std::ofstream out(path);
+    std::string tmpPath = path + ".tmp" + std::to_string(static_cast<long>(getpid()));
+    std::ofstream out(tmpPath);
     out << "# property " << property.id << "\n# driver " << driver << " seed " << gSeed << "\n# sig " << c.sig << "\n";
     std::istringstream m(c.msg);
     std::string line;
@@ -120,6 +121,8 @@ std::string writeReplay(const std::vector<uint32_t> &tape, const Case &c, const 
         out << "# " << line << "\n";
     }
     out << "tape: " << tapeToString(tape) << "\n";
+    out.close();
+    rename(tmpPath.c_str(), path.c_str()); // several workers may shrink to the same tape: never expose a half-written file
     return path;
 }
 
@@ -141,7 +144,9 @@ bool readReplay(const std::string &path, std::vector<uint32_t> &tape)
     }
     // raw binary tape (a .cur file or a libFuzzer artifact of a tape-driven target)
     tape.resize(all.size() / 4);
-    memcpy(tape.data(), all.data(), tape.size() * 4);
+    if (!tape.empty()) {
+        memcpy(tape.data(), all.data(), tape.size() * 4);
+    }
     return true;
 }
 
